@@ -348,17 +348,23 @@ func VerifC06_settings() {
 	for i := range ss {
 		ss[i] = Setting{ID: SettingID(vfU16("id")), Val: vfU32("val")}
 		isWin := ss[i].ID == SettingInitialWindowSize
-		tooBig = vfOr(tooBig, vfAnd(vfNot(seen), vfAnd(isWin, ss[i].Val > 1<<31-1)))
+		tooBig = vfOr(tooBig, vfAnd(isWin, ss[i].Val > 1<<31-1))
 		seen = vfOr(seen, isWin)
 	}
 	err := w.fr.WriteSettings(ss...)
-	vfAssert(err == nil, "WriteSettings accepts any settings")
+	// (fixed finding C06-settings-window-unvalidated, /repo "Framer.WriteSettings refuses SETTINGS_INITIAL_WINDOW_SIZE
+	// above 2^31-1": ReadFrame rejects a frame whose first INITIAL_WINDOW_SIZE entry is that large)
+	vfAssert(vfAnd(vfImplies(err != nil, tooBig), vfImplies(tooBig, err != nil)), "WriteSettings refuses exactly an INITIAL_WINDOW_SIZE above 2^31-1")
+	if err != nil {
+		vfReach("refused")
+		return
+	}
 	wire := w.wire()
 	vfAssert(len(wire) == frameHeaderLen+6*k, "6 bytes per setting")
 	for _, illegal := range []bool{false, true} {
 		f, err := c06read(wire, illegal)
 		if err != nil {
-			vfAssertKF(false, "SETTINGS frame reads back", c06KeySettings, tooBig)
+			vfAssert(false, "SETTINGS frame reads back")
 			return
 		}
 		sf, ok := f.(*SettingsFrame)
